@@ -216,6 +216,9 @@ impl Property for C06 {
     fn marks(&self) -> bool {
         true
     }
+    fn fuzz(&self) -> Option<crate::FuzzSpec> {
+        Some(crate::FuzzSpec { label: "c06-ws", max_len: 700, runs: 120 })
+    }
     fn run(&self, ctx: &mut Ctx) {
         let corpus_files = corpus();
         let cases = ctx.tier.pick(2_500, 60_000);
